@@ -449,7 +449,7 @@ def refresh_flow(ctx, rep, rule):
                               "unauthenticated and in clear" % ("cleared before set_keys has run" if early else "not cleared after set_keys"), loc(ctx, mod, e))
                     rep.check(rule, q + ".refresh|final-refresh", any(j > i for j, x in probes) or p.done == "raise", "time/boots refresh with the real keys follows",
                               "no refresh after the keys are installed", loc(ctx, mod, e))
-                if not sk and p.done is None and probes and ("self._deferred_user", True) in p.conds:
+                if not sk and p.done is None and probes and (("self._deferred_user", True) in p.conds or ("old(self._deferred_user)", True) in p.conds):
                     rep.violation(rule, q + ".refresh|install-deferred", "a deferred user is pending but set_keys is not called on this path", ctx.py.loc(mod, node))
             if not nk:
                 rep.missing(rule, q + ".refresh: self._sock.set_keys")
@@ -983,6 +983,21 @@ def key_classes(ctx, rep, rule):
         rep.missing(rule, "module user")
         return
     classes = {n.name: n for n in tree.body if isinstance(n, ast.ClassDef)}
+    # the classmethods that expose the RFC 3414 derivations hand their arguments to the extension unchanged: an aligned or
+    # otherwise rewritten key is a different key, and a wrong-size one is no longer refused
+    for c in classes.values():
+        for f in [x for x in c.body if isinstance(x, ast.FunctionDef) and x.name in ("get_master_key", "get_localized_key")]:
+            params = [a.arg for a in f.args.args][1:]
+            for call in [x for x in ast.walk(f) if isinstance(x, ast.Call) and isinstance(x.func, ast.Name) and x.func.id == f.name]:
+                got = [ast.unparse(a) for a in call.args[1:]]
+                key = "user.%s.%s|arguments handed on unchanged" % (c.name, f.name)
+                if got == params:
+                    rep.ok(rule, key, "%s(alg, %s)" % (f.name, ", ".join(params)), py.loc("user", call), obligation=True)
+                elif len(got) == len(params) and all(g == p_ or isinstance(a, ast.Name) for g, p_, a in zip(got, params, call.args[1:])):
+                    rep.inconclusive(rule, key, "arguments passed through locals (%s)" % got, py.loc("user", call))
+                else:
+                    rep.violation(rule, key, "%s passes %s to the extension instead of its own parameters %s: the key is rewritten on the way" % (f.name, got, params),
+                                  py.loc("user", call), obligation=True)
     keyish = [c for c in classes.values() if c.name.endswith("Key") or any(ast.unparse(b).endswith("Key") for b in c.bases)]
     if len(keyish) < 4:
         rep.missing(rule, "user.py: key classes (found %d)" % len(keyish))
@@ -1081,6 +1096,20 @@ def wait_once(ctx, rep, rule):
                         rep.violation(rule, key, "the wait stands in a loop that comes round again after `except %s` (line %d): a request whose send is "
                                       "retried consults the limiter again and takes a second slot" % (ast.unparse(retry.type) if retry.type else "", retry.lineno),
                                       ctx.py.loc(mod, call), obligation=True)
+    # a function of the asyncio client that waits for the limiter itself and then sends through `_send` - which waits again
+    send_node = m.classes.get("async_client", {}).get("SnmpSession", {}).get("_send")
+    send_waits = send_node is not None and any(isinstance(x, ast.Call) and isinstance(x.func, ast.Attribute) and x.func.attr == "wait" and "policer" in ast.unparse(x.func.value)
+                                                for x in ast.walk(send_node))
+    if send_waits:
+        for cls, meths in sorted(m.classes.get("async_client", {}).items()):
+            for meth, node in sorted(meths.items()):
+                if node is send_node:
+                    continue
+                waits = [x for x in ast.walk(node) if isinstance(x, ast.Call) and isinstance(x.func, ast.Attribute) and x.func.attr == "wait" and "policer" in ast.unparse(x.func.value)]
+                sends = [x for x in ast.walk(node) if isinstance(x, ast.Call) and isinstance(x.func, ast.Attribute) and x.func.attr == "_send"]
+                if waits and sends:
+                    rep.violation(rule, "async_client.%s.%s|limiter consulted once per request" % (cls, meth), "%s waits for the limiter and then sends through "
+                                  "_send(), which waits for it again: every request takes two slots" % meth, ctx.py.loc("async_client", waits[0]), obligation=True)
     if n < 1:     # how many call sites there are is the refactorer's business (a shared helper leaves one); none at all is C19.guard's finding too
         rep.missing(rule, "calls of the limiter in the clients (found %d)" % n)
 
